@@ -297,7 +297,11 @@ deriving DecidableEq, Repr
 
 inductive RegCall
   | separateProcess | listGroups | listNames | listLocations | reverse | shuffle (seed : Nat) | runAll
+  | install (name : String) | remove (name : String)      -- `installPlugin` / `removePluginByName`
 deriving DecidableEq, Repr
+
+def nameMemLeak : String := "MemoryLeakPlugin"          -- DEF_PLUGIN_MEM_LEAK
+def nameSetPointer : String := "SetPointerPlugin"       -- DEF_PLUGIN_SET_POINTER
 
 inductive Printed | help | usage | other
 deriving DecidableEq, Repr
@@ -356,11 +360,13 @@ def loopRan (c : Config) (ps : List ProbeTest) : Nat → List Nat
 
 def initCalls (c : Config) : List RegCall := if c.separateProcess then [.separateProcess] else []
 
-/-- `runAllTestsMain` for the outcome of `parse` -/
+/-- `runAllTestsMain` for the outcome of `parse`: `SetPointerPlugin` is installed before the
+    arguments are parsed and removed before returning, whatever happens in between -/
 def runner (ps : List ProbeTest) : ParseResult → RunnerTrace
   | .reject c =>
     { rc := 1, outputs := [.console], verbosity := some 0, color := some false,
-      printed := if c.needHelp then .help else .usage, calls := [], ran := [],
+      printed := if c.needHelp then .help else .usage,
+      calls := [.install nameSetPointer, .remove nameSetPointer], ran := [],
       crashOnFail := false, rethrow := false }
   | .ok c =>
     { rc := if c.listGroups || c.listNames || c.listLocations then 0
@@ -369,12 +375,69 @@ def runner (ps : List ProbeTest) : ParseResult → RunnerTrace
       verbosity := if hasConsole c then some (verbosityOf c) else none,
       color := if hasConsole c then some c.color else none,
       printed := .other,
-      calls := initCalls c ++
+      calls := [.install nameSetPointer] ++ initCalls c ++
         (if c.listGroups then [.listGroups]
          else if c.listNames then [.listNames]
          else if c.listLocations then [.listLocations]
-         else (if c.reversing then [.reverse] else []) ++ loopCalls c c.repeatCount),
+         else (if c.reversing then [.reverse] else []) ++ loopCalls c c.repeatCount) ++ [.remove nameSetPointer],
       ran := if c.listGroups || c.listNames || c.listLocations then [] else loopRan c ps c.repeatCount,
       crashOnFail := c.crashOnFail, rethrow := c.rethrow }
+
+/-! ## the plugins' `parseArguments`
+
+`TestPlugin::parseArguments` (include/CppUTest/TestPlugin.h) returns false; `SetPointerPlugin`,
+`MemoryLeakWarningPlugin` and `MockSupportPlugin` do not override it.  The only override in the
+tree is `MemoryReporterPlugin::parseArguments` (src/CppUTestExt/MemoryReporterPlugin.cpp):
+`argument.contains("-pmemoryreport=")`. -/
+
+/-- `TestPlugin::parseArguments`: the default says no -/
+def defaultParseArguments : Bytes → Bool := fun _ => false
+
+def litMemoryReport : Bytes :=
+  [45, 112, 109, 101, 109, 111, 114, 121, 114, 101, 112, 111, 114, 116, 61]       -- -pmemoryreport=
+
+/-- `MemoryReporterPlugin::parseArguments` -/
+def memoryReporterParseArguments : Bytes → Bool := fun a => isInfix a litMemoryReport
+
+/-- the chain `CommandLineTestRunner::runAllTestsMain` hands to `parse`: `SetPointerPlugin` is
+    installed in front of whatever the registry holds -/
+def runnerChain (registryPlugins : List (Bytes → Bool)) : List (Bytes → Bool) :=
+  defaultParseArguments :: registryPlugins
+
+/-- the chain under the static `CommandLineTestRunner::RunAllTests`: `MemoryLeakWarningPlugin`
+    is installed first, then `runAllTestsMain` adds `SetPointerPlugin` -/
+def runAllTestsChain (registryPlugins : List (Bytes → Bool)) : List (Bytes → Bool) :=
+  defaultParseArguments :: defaultParseArguments :: registryPlugins
+
+/-! ## `CommandLineTestRunner::RunAllTests(ac, av)` — the glue around the run
+
+```
+MemoryLeakWarningPlugin memLeakWarn(DEF_PLUGIN_MEM_LEAK);  …installPlugin(&memLeakWarn);
+{ CommandLineTestRunner runner(ac, av, registry); result = runner.runAllTestsMain(); }
+if (result == 0) backupOutput << memLeakWarn.FinalReport(0);
+…removePluginByName(DEF_PLUGIN_MEM_LEAK); return result;
+```
+and `runAllTestsMain` installs `SetPointerPlugin` before parsing and removes it afterwards.
+Plugins are names here (`installPlugin` = cons; `removePluginByName` = erase). -/
+
+structure GlueTrace where
+  rc           : Nat
+  calls        : List RegCall     -- calls made to the registry, in order
+  pluginsAfter : List String      -- names of the plugins in the registry when `RunAllTests` returns, head first
+  run          : RunnerTrace      -- what `runAllTestsMain` did
+deriving Repr
+
+/-- `TestRegistry::removePluginByName` on names -/
+def removePlugin (name : String) (ps : List String) : List String := ps.filter (· != name)
+
+/-- names of the plugins in the registry while the arguments are parsed and the tests run -/
+def pluginsDuring (registryPlugins : List String) : List String :=
+  nameSetPointer :: nameMemLeak :: registryPlugins
+
+def runAllTestsGlue (ps : List ProbeTest) (registryPlugins : List String) (r : ParseResult) : GlueTrace :=
+  { rc := (runner ps r).rc,
+    calls := [.install nameMemLeak] ++ (runner ps r).calls ++ [.remove nameMemLeak],
+    pluginsAfter := removePlugin nameMemLeak (removePlugin nameSetPointer (pluginsDuring registryPlugins)),
+    run := runner ps r }
 
 end CommandLine
